@@ -313,6 +313,9 @@ def check_timeout_passthrough(ck, rid: str, funcs, what='timeout'):
                     probs.append(f'L{x.lineno}: `{norm_text(x)}` replaces an explicit 0 by the default: "do not wait" becomes "wait {norm_text(x.values[1])}"')
                 if isinstance(x, ast.IfExp) and isinstance(x.test, ast.Name) and x.test.id == p:
                     probs.append(f'L{x.lineno}: `{norm_text(x)[:60]}` decides by truthiness of `{p}`: an explicit 0 is treated as "not given"')
+            for x in ast.walk(f.node):
+                if isinstance(x, ast.Call) and (dotted(x.func) or '') in ('time.time', 'datetime.now', 'datetime.datetime.now', 'datetime.utcnow'):
+                    probs.append(f'L{x.lineno}: `{norm_text(x)}` measures the wait with the wall clock: a step of the system time stretches or cuts the `{p}` — use a monotonic clock')
             n_ob += 1
             ck.ob(rid, f, (f.node.lineno, f'{f.qualname}({p})'), not probs, '; '.join(sorted(set(probs))) if probs else f'`{p}` reaches its uses as given; a default replaces `None` only')
     return n_ob
